@@ -50,6 +50,20 @@ def evaluate(ids, seeds=("0",), tier="quick"):
         print("refusing: /repo has uncommitted changes")
         return 2
     rows = []
+    # evidence files describe runs on the unchanged tree: keep them out of harm's way
+    ev_dir = os.path.join(VERIF, "evidence")
+    ev_keep = os.path.join(VERIF, "out", "evidence_keep_%d" % os.getpid())
+    shutil.rmtree(ev_keep, ignore_errors=True)
+    shutil.copytree(ev_dir, ev_keep)
+    try:
+        return _evaluate(ids, seeds, tier, rows)
+    finally:
+        shutil.rmtree(ev_dir, ignore_errors=True)
+        shutil.copytree(ev_keep, ev_dir)
+        shutil.rmtree(ev_keep, ignore_errors=True)
+
+
+def _evaluate(ids, seeds, tier, rows):
     for d in sorted(glob.glob(os.path.join(VERIF, "seeded", "*"))):
         sid = os.path.basename(d)
         if ids and sid not in ids:
@@ -71,7 +85,7 @@ def evaluate(ids, seeds=("0",), tier="quick"):
             for chk in checks:
                 for sd in seeds:
                     t0 = time.time()
-                    p = sh("cd %s && VERIF_SEED=%s timeout 1500 ./check %s --tier %s" % (VERIF, sd, chk, tier))
+                    p = sh("cd %s && WHOOSIM_EVIDENCE_DIR=%s/out/evidence_mutated VERIF_SEED=%s timeout 1500 ./check %s --tier %s" % (VERIF, VERIF, sd, chk, tier))
                     ent = per.setdefault(chk, {"caught_seeds": [], "missed_seeds": [], "signatures": []})
                     if p.returncode == 1 and ("VIOLATION property=%s" % chk) in p.stdout:
                         lines = [l for l in p.stdout.splitlines() if l.startswith("  clause=")]
